@@ -17,7 +17,7 @@ na = {
  "C19":"Encode is a pure function of (data, fragment size, redundancy); a lossy channel would only sample erasure patterns for it (DESIGN.md §5 C19)",
  "C20":"pure arithmetic on a given instant / parameter tuple; gps reads no clock, so simulated clock skew has nothing to act on (DESIGN.md §5 C20)",
 }
-pending = ["C05","C14","C15"]
+pending = []
 m = {
  "version":1,
  "setup_cmd":"./setup.sh",
